@@ -356,6 +356,10 @@ def exit_orders():
 
 
 # ------------------------------------------------------------------ (c) redirections
+def determ_now(loop):
+    return loop.time()
+
+
 def redirect_worker(_job):
     acc = core.Acc()
     root = os.path.join(SCRATCH, 'r%d' % os.getpid())
@@ -380,7 +384,26 @@ def redirect_worker(_job):
         process.stderr.write(b'%d' % n)
         process.exit(0)
     scenarios = ['input-bytes', 'stdin-path', 'stdin-file', 'stdout-path', 'stdout-file', 'devnull', 'proc-to-proc',
-                 'stderr-to-stdout', 'send-eof-false']
+                 'stderr-to-stdout', 'send-eof-false', 'stdout-asyncfile', 'stderr-asyncfile', 'both-asyncfile-wait',
+                 'stdout-streamwriter', 'asyncfile-check']
+
+    class AsyncFile:
+        """aiofiles-style target: write() and close() are coroutines that really suspend (virtual timer)"""
+
+        def __init__(self, delay):
+            self.buf, self.closed, self.delay = [], False, delay
+
+        async def write(self, d):
+            await asyncio.sleep(self.delay)
+            self.buf.append(bytes(d))
+            return len(d)
+
+        async def close(self):
+            await asyncio.sleep(self.delay)
+            self.closed = True
+
+        def got(self):
+            return b''.join(self.buf)
     for sc in scenarios:
         loop = P.fresh(0)
         viol = []
@@ -421,6 +444,41 @@ def redirect_worker(_job):
                 elif sc == 'stderr-to-stdout':
                     r = await c.run('x', input=b'abc', stderr=asyncssh.STDOUT, encoding=None)
                     out['ok'] = sorted(r.stdout) == sorted(b'abc3') and not r.stderr
+                elif sc in ('stdout-asyncfile', 'stderr-asyncfile', 'both-asyncfile-wait', 'asyncfile-check'):
+                    # targets written asynchronously: whatever reports the exit status must come after the last write
+                    fo, fe = AsyncFile(0.03), AsyncFile(0.05)
+                    small = data[:20000]
+                    if sc == 'stdout-asyncfile':
+                        r = await c.run('x', input=small, stdout=fo, encoding=None)
+                        out['ok'] = fo.got() == small and r.exit_status == 0 and r.stderr == b'%d' % len(small)
+                    elif sc == 'stderr-asyncfile':
+                        r = await c.run('x', input=small, stderr=fe, encoding=None)
+                        out['ok'] = fe.got() == b'%d' % len(small) and r.stdout == small and r.exit_status == 0
+                    elif sc == 'both-asyncfile-wait':
+                        p = await c.create_process('x', stdout=fo, stderr=fe, encoding=None)
+                        p.stdin.write(small)
+                        p.stdin.write_eof()
+                        r = await p.wait()
+                        out['ok'] = fo.got() == small and fe.got() == b'%d' % len(small) and r.exit_status == 0
+                    else:
+                        fo2 = AsyncFile(0.03)
+                        p = await c.create_process('x', stdout=fo2, encoding=None)
+                        o, e = await p.communicate(small)
+                        out['ok'] = fo2.got() == small and p.exit_status == 0
+                elif sc == 'stdout-streamwriter':
+                    got = []
+
+                    class Sink(asyncio.Protocol):
+                        def data_received(self, d):
+                            got.append(bytes(d))
+                    await loop.create_server(Sink, 'sink.example', 9)
+                    rd, wr = await asyncio.open_connection('sink.example', 9)
+                    r = await c.run('x', input=data, stdout=wr, encoding=None)
+                    for _ in range(50):
+                        if sum(map(len, got)) >= len(data):
+                            break
+                        await asyncio.sleep(0.01)
+                    out['ok'] = b''.join(got) == data and r.exit_status == 0
                 elif sc == 'send-eof-false':
                     p = await c.create_process('x', stdin=os.path.join(root, 'in'), send_eof=False, encoding=None)
                     got = await p.stdout.readexactly(len(data))
@@ -430,6 +488,12 @@ def redirect_worker(_job):
                     out['ok'] = got == data and r.stderr == b'%d' % (len(data) + 4)
             t = loop.create_task(body())
             loop.flush_all(horizon=400000)
+            for _ in range(3000):
+                # targets that suspend on the (virtual) clock: let it run while the application is still waiting
+                if t.done() or loop.next_timer() is None or loop.next_timer() > determ_now(loop) + 600:
+                    break
+                loop.advance()
+                loop.flush_all(horizon=400000)
             if not t.done():
                 viol.append(('redirect-hangs', sc))
             elif t.exception() is not None:
@@ -1259,8 +1323,8 @@ def main(tier, seed):
     rule = ('(a) 7 byte streams + a 3-window stream + a multi-byte text stream x 15 read-call menus (read n / -1 / 0, '
             'readexactly, readline, readuntil with one, several and regex separators incl. overlapping prefixes) x '
             'max packet sizes {1,2,3,5,32768} x packet delivery orders within the deviation bound; (b) %d orders of '
-            'stdout/stderr data, EOF, exit-status|exit-signal before CLOSE from the independent peer; (c) 9 '
-            'redirection kinds, and stdout/stderr of a running process redirected to a path / file / other process / DEVNULL '
+            'stdout/stderr data, EOF, exit-status|exit-signal before CLOSE from the independent peer; (c) 14 '
+            'redirection kinds (incl. targets written asynchronously: coroutine write()/close() suspended on the clock, a StreamWriter), and stdout/stderr of a running process redirected to a path / file / other process / DEVNULL '
             'after every number 0..25 of packet deliveries (stream buffer empty, full with the channel paused, after '
             'EOF, after exit), with and without a read before; stdout or stderr of one process made the stdin of another '
             '(at creation or by redirect_stdin) after every number 0..15 of deliveries; a pipe into a process that does not '
